@@ -47,32 +47,39 @@ def _lexical(raw):
     return norm
 
 
+WSGI = [False]  # front end of the request under judgement (part variant "wsgi")
+
+
 def _request(app, method, path_info, hrefs=None):
+    fe = {"wsgi": WSGI[0]}
     if method == "PUT":
-        return mweb.call(app, "PUT", path_info, body=b"xq", content_type="text/calendar")
+        return mweb.call(app, "PUT", path_info, body=b"xq", content_type="text/calendar", **fe)
     if method == "POST":
-        return mweb.call(app, "POST", path_info, body=b"xq", content_type="text/calendar")
+        return mweb.call(app, "POST", path_info, body=b"xq", content_type="text/calendar", **fe)
     if method == "PROPFIND":
         return mweb.call(app, "PROPFIND", path_info, headers=[("Depth", "1")],
-                         xml=mweb.propfind_body("{DAV:}resourcetype", "{DAV:}getetag"))
+                         xml=mweb.propfind_body("{DAV:}resourcetype", "{DAV:}getetag"), **fe)
     if method == "PROPPATCH":
         el = Wd.ET.Element("{DAV:}propertyupdate")
         prop = Wd.ET.SubElement(Wd.ET.SubElement(el, "{DAV:}set"), "{DAV:}prop")
         Wd.ET.SubElement(prop, "{DAV:}displayname").text = "n"
-        return mweb.call(app, "PROPPATCH", path_info, xml=el, content_type="text/xml")
+        return mweb.call(app, "PROPPATCH", path_info, xml=el, content_type="text/xml", **fe)
     if method == "REPORT":
         el = Wd.ET.Element("{urn:ietf:params:xml:ns:caldav}calendar-multiget")
         Wd.ET.SubElement(Wd.ET.SubElement(el, "{DAV:}prop"), "{DAV:}getetag")
         for h in hrefs or []:
             Wd.ET.SubElement(el, "{DAV:}href").text = h
-        return mweb.call(app, "REPORT", path_info, xml=el, content_type="text/xml", headers=[("Depth", "0")])
-    return mweb.call(app, method, path_info)
+        return mweb.call(app, "REPORT", path_info, xml=el, content_type="text/xml", headers=[("Depth", "0")], **fe)
+    return mweb.call(app, method, path_info, **fe)
 
 
 def _summary(res):
-    """Observable answer at the abstraction of the statement."""
+    """Observable answer at the abstraction of the statement.  For a multistatus: the multiset of per-response
+    statuses and propstat codes (the hrefs echo the request path, which differs between the literal and the
+    normalised request by construction)."""
     if res.kind == "multistatus":
-        return ("207", sorted((s.href, (s.status or "200")[:3]) for s in res.statuses))
+        return ("207", sorted(((s.status or "")[:3], tuple(sorted((ps.statuscode or "")[:3] + ps.prop.tag for ps in (s.propstat or []))))
+                              for s in res.statuses))
     if res.kind == "response":
         return (res.status_class, res.body if res.status_class == "2xx" else None)
     return (res.status_class, None)
@@ -124,20 +131,59 @@ def _judge(method, path_info, hrefs=None):
         return True, "inner-dots:" + sc
     if refused:
         return True, "dotted:refused"
-    w2, before2, res2 = _run(method, norm, hrefs)
-    same = _summary(res2)[0] == _summary(res)[0] and Wm.digest(w2) == after
+    # "the corresponding normalised path": POSIX normalisation keeps exactly two leading slashes ('//..' -> '//'),
+    # which xandikos addresses as the root directory rather than as its start page; either reading is accepted
+    cands = [norm]
+    posix_norm = Wm.MPosixpath.normpath(raw)
+    if posix_norm != norm:
+        cands.append(posix_norm)
+    same = False
+    for cand in cands:
+        w2, before2, res2 = _run(method, cand, hrefs)
+        same = same or (_summary(res2) == _summary(res) and Wm.digest(w2) == after)
     return same, "dotted:as-normalised"
 
 
 CONTAINERS = ["", "/user", "/user/calendars", "/user/calendars/cal", "/user/contacts/ab"]
 
 
-def body_segments(segs, base=0):
-    part = ctx.PART
+def _variant(part):
     if isinstance(part, (tuple, list)):
-        part, ROOT_STORE[0] = part[0], (part[1] == "rootstore")
-    else:
-        ROOT_STORE[0] = False
+        ROOT_STORE[0], WSGI[0] = (part[1] == "rootstore"), (part[1] == "wsgi")
+        return part[0]
+    ROOT_STORE[0], WSGI[0] = False, False
+    return part
+
+
+def _untraced():
+    try:
+        from crosshair.tracers import NoTracing
+        return NoTracing()
+    except ImportError:
+        import contextlib
+        return contextlib.nullcontext()
+
+
+def body_segments(n, s1, s2, s3):
+    """(indices into finite menus: the solver branches on every one - xv.core.pick - and the requests then run on
+    concrete values outside the tracer, under EVERY existing container; the part is covered exhaustively up to
+    nseg segments)"""
+    from xv.core import pick
+    n = pick(n, ctx.b.nseg + 1)
+    segs = [pick(x, len(SEGS)) for x in (s1, s2, s3)[:n]]
+    with _untraced():
+        worst = None
+        for base in range(len(CONTAINERS)):
+            ok, cls = _segments(segs, base)
+            if not ok:
+                return (False, cls)
+            if worst is None or cls.startswith("dotted"):
+                worst = cls
+        return (True, worst)
+
+
+def _segments(segs, base=0):
+    part = _variant(ctx.PART)
     method = METHODS[part]
     # an existing container (so that the adversarial tail is reached under every real parent) + the tail
     path_info = CONTAINERS[base] + "/" + "/".join(SEGS[i] for i in segs)
@@ -153,8 +199,14 @@ def body_climb(base, ups, tail, lead):
     """Escape attempts in canonical form: an existing container, `ups` times '..', then a tail that names a
     sibling of the data root (incl. siblings whose name starts with the root's own basename); optionally a doubled
     leading slash.  Small enough to be exhausted."""
-    part = ctx.PART
-    ROOT_STORE[0] = False
+    from xv.core import pick
+    base, ups, tail, lead = pick(base, len(CONTAINERS)), pick(ups, ctx.b.ups + 1), pick(tail, len(TAILS)), (True if lead else False)
+    with _untraced():
+        return _climb(base, ups, tail, lead)
+
+
+def _climb(base, ups, tail, lead):
+    part = _variant(ctx.PART)
     method = METHODS[part]
     path_info = ("/" if lead else "") + CONTAINERS[base] + "/" + "../" * ups + TAILS[tail]
     ok, cls = _judge(method, path_info)
@@ -169,12 +221,13 @@ def h_climb(base: int, ups: int, tail: int, lead: bool) -> bool:
     return run(body_climb, base, ups, tail, lead)
 
 
-def h_segments(segs: List[int], base: int) -> bool:
+def h_segments(n: int, s1: int, s2: int, s3: int) -> bool:
     """
-    pre: len(segs) <= ctx.b.nseg and all(0 <= i < len(SEGS) for i in segs) and 0 <= base < len(CONTAINERS)
+    pre: 0 <= n <= ctx.b.nseg and 0 <= s1 < len(SEGS) and 0 <= s2 < len(SEGS) and 0 <= s3 < len(SEGS)
+    pre: (n >= 1 or s1 == 0) and (n >= 2 or s2 == 0) and (n >= 3 or s3 == 0)
     post: _
     """
-    return run(body_segments, segs, base)
+    return run(body_segments, n, s1, s2, s3)
 
 
 def body_raw(path_info):
@@ -201,7 +254,7 @@ def body_hrefs(hsegs, prefix_kind):
 
 def h_hrefs(hsegs: List[int], prefix_kind: int) -> bool:
     """
-    pre: len(hsegs) <= ctx.b.nseg and all(0 <= i < len(SEGS) for i in hsegs) and 0 <= prefix_kind <= 2
+    pre: len(hsegs) <= ctx.b.hseg and all(0 <= i < len(SEGS) for i in hsegs) and 0 <= prefix_kind <= 2
     post: _
     """
     return run(body_hrefs, hsegs, prefix_kind)
@@ -264,15 +317,20 @@ def real_segments(args, part):
     rs = False
     if isinstance(part, (tuple, list)):
         part, rs = part[0], part[1] == "rootstore"
-    base = args[1] if len(args) > 1 else 0
-    return _real(METHODS[part], CONTAINERS[base] + "/" + "/".join(SEGS[i] for i in args[0]), root_store=rs)
+    n = args[0]
+    out = None
+    for base in range(len(CONTAINERS)):
+        out = _real(METHODS[part], CONTAINERS[base] + "/" + "/".join(SEGS[i] for i in list(args[1:4])[:n]), root_store=rs)
+        if out is not None:
+            return out
+    return out
 
 
 def real_raw(args, part):
     return _real(METHODS[part], args[0])
 
 
-_B = {"quick": {"nseg": 3, "rlen": 5, "klen": 5}, "thorough": {"nseg": 5, "rlen": 7, "klen": 7}}
+_B = {"quick": {"nseg": 2, "hseg": 3, "rlen": 5, "klen": 5}, "thorough": {"nseg": 3, "hseg": 5, "rlen": 7, "klen": 7}}
 _ENC = ["xandikos.web.XandikosBackend.get_resource", "xandikos.web.XandikosBackend._map_to_file_path",
         "xandikos.web.XandikosBackend.create_collection", "xandikos.webdav.WebDAVApp._get_resource_from_environ",
         "xandikos.webdav.MkcolMethod.handle", "xandikos.caldav.MkcalendarMethod.handle",
@@ -287,17 +345,19 @@ HARNESSES = [
     Harness("segments", h_segments, body_segments,
             classes=[("dotted:as-normalised", 0), ("dotted:refused", 4), ("normal:2xx", 4), ("normal:404", 0),
                      ("inner-dots:2xx", 0)],
-            parts={"quick": list(range(len(METHODS))) + [(3, "rootstore"), (1, "rootstore"), (4, "rootstore")],
-                   "thorough": list(range(len(METHODS))) + [(i, "rootstore") for i in range(len(METHODS))]},
-            bounds=_B, budget={"quick": 90, "thorough": 600},
+            parts={"quick": list(range(len(METHODS))) + [(3, "rootstore"), (1, "rootstore"), (4, "rootstore")] +
+                            [(i, "wsgi") for i in (0, 1, 3, 4, 6)],
+                   "thorough": list(range(len(METHODS))) + [(i, v) for i in range(len(METHODS)) for v in ("rootstore", "wsgi")]},
+            bounds=_B, budget={"quick": 120, "thorough": 900},
             real_replay=real_segments,
             describe="path_info = '/' + '/'.join(segments from an adversarial menu incl. double-encoded ones); part = "
                      "method, or (method, 'rootstore') for a deployment whose data root is itself a git collection",
             encodes=_ENC),
     Harness("climb", h_climb, body_climb, classes=[("dotted:as-normalised", 4), ("dotted:refused", 0)],
-            parts={"quick": [1, 3, 4, 5], "thorough": list(range(len(METHODS)))},
+            parts={"quick": list(range(len(METHODS))) + [(i, "wsgi") for i in (1, 3, 4)],
+                   "thorough": list(range(len(METHODS))) + [(i, "wsgi") for i in range(len(METHODS))]},
             bounds={"quick": {"ups": 5}, "thorough": {"ups": 6}}, budget={"quick": 100, "thorough": 600},
-            real_replay=lambda args, part: _real(METHODS[part], ("/" if args[3] else "") + CONTAINERS[args[0]] + "/" + "../" * args[1] + TAILS[args[2]]),
+            real_replay=lambda args, part: _real(METHODS[part[0] if isinstance(part, (tuple, list)) else part], ("/" if args[3] else "") + CONTAINERS[args[0]] + "/" + "../" * args[1] + TAILS[args[2]]),
             describe="canonical escape attempts: container + k x '..' + a tail naming a sibling of the root (also siblings "
                      "whose name starts with the root's basename), optional doubled leading slash; part = method",
             encodes=_ENC),
